@@ -291,6 +291,20 @@ func (fr *Frame) run(st0 *State, reach0 Term) []retPoint {
 				for _, r := range x.Results {
 					rs = append(rs, fr.val(r, st))
 				}
+				if fr.top && fr.fc != nil && len(fr.fc.RetAssert) > 0 {
+					// assert@ret: a condition over the locals at every return point
+					ord := returnOrdinal(fr.fn, x)
+					env := fr.specEnvAt(st, fmt.Sprintf("assert@ret (return %d)", ord), x.Pos())
+					for i, r := range rs {
+						env.vars[fmt.Sprintf("result%d", i)] = r
+						if i == 0 {
+							env.vars["result"] = r
+						}
+					}
+					for j, c := range fr.fc.RetAssert {
+						fr.obligeParts(fmt.Sprintf("ret%d.assert%s.%d", ord, labelSuffix(c), j+1), "ret-assert", reach, env, c)
+					}
+				}
 				rets = append(rets, retPoint{reach, rs, st})
 			case *ssa.Panic:
 				fr.panicInstr(x, st, reach)
@@ -1880,4 +1894,25 @@ func (lr *loopRun) backSuffix() string {
 		return ""
 	}
 	return fmt.Sprintf(".b%d", lr.curBack)
+}
+
+
+// returnOrdinal: the position of a return instruction among the function's
+// returns in source order (stable under line shifts).
+func returnOrdinal(fn *ssa.Function, r *ssa.Return) int {
+	var rs []*ssa.Return
+	for _, b := range fn.Blocks {
+		for _, in := range b.Instrs {
+			if x, ok := in.(*ssa.Return); ok {
+				rs = append(rs, x)
+			}
+		}
+	}
+	sort.SliceStable(rs, func(i, j int) bool { return rs[i].Pos() < rs[j].Pos() })
+	for i, x := range rs {
+		if x == r {
+			return i + 1
+		}
+	}
+	return 0
 }
